@@ -4,6 +4,7 @@
 //! event, with the reference lexer (`models::lex`) + configuration layer (`models::layer`).
 
 use crate::common::*;
+use crate::env::Script;
 use crate::inputs::*;
 use crate::models::layer::*;
 use crate::models::lex::*;
@@ -54,9 +55,14 @@ impl Truth {
         Truth { items, fatal, final_pos: Some(len), saw_bare_pi_open: lexed.saw_bare_pi_open, label: "reference" }
     }
     /// C16: the implementation's own run under the neutral configuration.
-    pub fn from_neutral(input: &[u8]) -> Result<Truth, String> {
+    pub fn from_neutral(input: &[u8], script: Option<&Script>) -> Result<Truth, String> {
         let mut obs = Vec::new();
-        run_slice(input, NEUTRAL, 0, &mut obs);
+        match script {
+            None => run_slice(input, NEUTRAL, 0, &mut obs),
+            Some(sc) => {
+                run_buffered(input, NEUTRAL, sc, 0, false, &mut obs);
+            }
+        }
         let mut items = Vec::new();
         let mut fatal = None;
         let mut final_pos = None;
@@ -111,8 +117,25 @@ pub fn check_one(
     obs: &mut Vec<Obs>,
     exp: &mut Vec<Exp>,
 ) -> Verdict {
+    check_one_src(input, truth, cfg, known, obs, exp, None)
+}
+
+pub fn check_one_src(
+    input: &[u8],
+    truth: &Truth,
+    cfg: u8,
+    known: &Known,
+    obs: &mut Vec<Obs>,
+    exp: &mut Vec<Exp>,
+    script: Option<&Script>,
+) -> Verdict {
     let s = strip_bom(input);
-    run_slice(input, cfg, 0, obs);
+    match script {
+        None => run_slice(input, cfg, 0, obs),
+        Some(sc) => {
+            run_buffered(input, cfg, sc, 0, false, obs);
+        }
+    }
     let amb = truth.expected(cfg, 0, exp);
     if first_divergence(obs, exp).is_none() {
         return Verdict { ok: true, known: Vec::new(), what: String::new() };
@@ -182,6 +205,14 @@ fn case_json2(input: &[u8], cfg: u8, neutral: bool) -> Value {
     json!({"input": bytes_json(input), "cfg": cfg, "cfg_names": cfg_show(cfg), "neutral": neutral})
 }
 
+fn case_json3(input: &[u8], cfg: u8, neutral: bool, script: Option<&Script>) -> Value {
+    let mut v = case_json2(input, cfg, neutral);
+    if let Some(s) = script {
+        v["script"] = s.to_json();
+    }
+    v
+}
+
 pub struct Run<'a> {
     pub ctx: &'a Ctx,
     pub known: Known,
@@ -190,12 +221,14 @@ pub struct Run<'a> {
     pub a_len: usize,
     /// false: C01 (reference lexer); true: C16 (neutral run of the implementation)
     pub neutral: bool,
+    /// None: borrowing reader; Some: buffered reader over this chunking (C16's buffered layers)
+    pub script: Option<Script>,
 }
 
 impl<'a> Run<'a> {
     fn truth(&self, input: &[u8]) -> Result<Truth, String> {
         if self.neutral {
-            Truth::from_neutral(input)
+            Truth::from_neutral(input, self.script.as_ref())
         } else {
             Ok(Truth::from_lexer(input))
         }
@@ -217,7 +250,7 @@ impl<'a> Run<'a> {
                 Ok(t) => t,
                 Err(e) => {
                     acc.evaluations += 1;
-                    acc.violation((ln, i * 128), format!("input {:?}: {}", lossy(&input), e), case_json2(&input, NEUTRAL, this.neutral));
+                    acc.violation((ln, i * 128), format!("input {:?}: {}", lossy(&input), e), case_json3(&input, NEUTRAL, this.neutral, this.script.as_ref()));
                     return;
                 }
             };
@@ -226,7 +259,7 @@ impl<'a> Run<'a> {
             for (ci, &cfg) in cfgs.iter().enumerate() {
                 acc.evaluations += 1;
                 acc.traces += 1;
-                let v = check_one(&input, &truth, cfg, known, &mut obs, &mut exp);
+                let v = check_one_src(&input, &truth, cfg, known, &mut obs, &mut exp, this.script.as_ref());
                 acc.transitions += obs.len() as u64;
                 if ci == 0 {
                     acc.state(signature(&obs));
@@ -241,7 +274,7 @@ impl<'a> Run<'a> {
                 }
                 if !v.ok {
                     if v.known.is_empty() {
-                        acc.violation((ln, i * 128 + cfg as u64), v.what, case_json2(&input, cfg, this.neutral));
+                        acc.violation((ln, i * 128 + cfg as u64), v.what, case_json3(&input, cfg, this.neutral, this.script.as_ref()));
                     } else {
                         for id in &v.known {
                             acc.known(id, || format!("{:?} cfg [{}]", lossy(&input), cfg_show(cfg)));
@@ -273,7 +306,7 @@ pub fn run(ctx: &Ctx) {
     let t = ctx.tier;
     let full = cfg!(feature = "full");
     let a_len = t.pick(7, if full { 8 } else { 6 });
-    let mut run = Run { ctx, known: Known::load(), layer_no: 0, a_len: a_len as usize, neutral: false };
+    let mut run = Run { ctx, known: Known::load(), layer_no: 0, a_len: a_len as usize, neutral: false, script: None };
     let all_cfgs: Vec<u8> = (0..128).collect();
     let two = [NEUTRAL, DEFAULT];
 
@@ -336,15 +369,16 @@ pub fn replay(case: &Value) -> Result<(), String> {
         bytes_from_json(&case["input"])
     };
     let truth = if case.get("neutral").and_then(|n| n.as_bool()) == Some(true) {
-        Truth::from_neutral(&input)?
+        Truth::from_neutral(&input, case.get("script").map(Script::from_json).as_ref())?
     } else {
         Truth::from_lexer(&input)
     };
     let mut obs = Vec::new();
     let mut exp = Vec::new();
     let known = Known::load();
-    let v = check_one(&input, &truth, cfg, &known, &mut obs, &mut exp);
-    println!("input:  {:?}\nconfig: {}", lossy(&input), cfg_show(cfg));
+    let script = case.get("script").map(Script::from_json);
+    let v = check_one_src(&input, &truth, cfg, &known, &mut obs, &mut exp, script.as_ref());
+    println!("input:  {:?}\nconfig: {}\nsource: {}", lossy(&input), cfg_show(cfg), script.as_ref().map_or("slice".to_string(), |s| format!("buffered {}", s.to_json())));
     println!("observed:");
     for o in show_trace(&obs) {
         println!("  {}", o.as_str().unwrap());
